@@ -34,7 +34,15 @@ for d in sorted(glob.glob(V + "/seeded/*/meta.json")):
     m = json.load(open(d))
     cr = m["check_result"]
     sig = ", ".join("`%s`" % s for s in cr["signatures"][:2]) + (" ..." if len(cr["signatures"]) > 2 else "")
-    rows.append("| %s | %s | %s | %s | %s |" % (m["id"], (m["title"] or "").replace("|", "/")[:150], (m["needs_to_manifest"] or "").replace("|", "/").replace("\n", " ")[:230], "yes" if cr["detected"] else "**no**", sig))
+    verdict = "yes" if cr["detected"] else "**no**"
+    oc = m.get("other_check_result")
+    if oc and oc.get("detected"):
+        verdict += "; by `%s`: yes" % oc["command"].replace("./check ", "").replace(" quick", "")
+        if not cr["detected"]:
+            sig = ", ".join("`%s`" % x for x in oc["signatures"][:2])
+    if m.get("note") and not cr["detected"] and not (oc and oc.get("detected")):
+        sig = m["note"][:160] + ("..." if len(m["note"]) > 160 else "")
+    rows.append("| %s | %s | %s | %s | %s |" % (m["id"], (m["title"] or "").replace("|", "/")[:150], (m["needs_to_manifest"] or "").replace("|", "/").replace("\n", " ")[:230], verdict, sig))
 tab12 = "| id | change | needs, to manifest | caught by `./check <property> quick` | signatures (first two) |\n|---|---|---|---|---|\n" + "\n".join(rows)
 
 notes = open(V + "/DESIGN_part2_seeded_notes.md").read() if os.path.exists(V + "/DESIGN_part2_seeded_notes.md") else ""
